@@ -292,7 +292,7 @@ def check_token(ctx, model):
            "forwards to cw20_base::contract::execute; own effects: %s" % effs, v.where())
 
 
-def check_hook_authorisation(ctx, model):
+def check_hook_authorisation(ctx, model, rule="C16-hook", only=None):
     """cw20 `Receive` hooks: the token contract calling the hook must be the right one -- a pool asset token for
     Swap, the LP token for WithdrawLiquidity / vault Withdraw -- otherwise anybody's worthless cw20 could fake a
     deposit or a burn."""
@@ -307,12 +307,14 @@ def check_hook_authorisation(ctx, model):
             "Swap": BoolVarGuard("sender is a pool asset token", is_sender(model), is_pool_token),
             "WithdrawLiquidity": EqGuard("sender==LP token", is_sender(model), lp)}))
     for crate, recv, enum, specs in rows:
-        v = ctx.view(recv, "C16-hook")
+        if only is not None and crate not in only:
+            continue
+        v = ctx.view(recv, rule)
         if v is None:
             continue
         hd = dispatch_on_enum(v, enum)
         if not hd:
-            ctx.missing("C16-hook", "Cw20HookMsg dispatch in %s" % recv)
+            ctx.missing(rule, "Cw20HookMsg dispatch in %s" % recv)
             continue
         hsb, _, htable = hd
         root = "%s::contract::execute" % crate
@@ -320,7 +322,7 @@ def check_hook_authorisation(ctx, model):
         prefix = ((root, calls[0], "call"),) if calls else ()
         for var, spec in sorted(specs.items()):
             if var not in htable:
-                ctx.missing("C16-hook", "%s Cw20HookMsg::%s" % (crate, var))
+                ctx.missing(rule, "%s Cw20HookMsg::%s" % (crate, var))
                 continue
             hab = arm_blocks(v, htable[var], hsb)
             effects = collect_effects(model, recv, hab, prefix=prefix)
@@ -329,11 +331,11 @@ def check_hook_authorisation(ctx, model):
                 ok, why = site_guarded(model, ch, e.fn, e.block, spec)
                 if not ok:
                     bad.append("%s@%s" % (it.split("::")[-1], e.fn.split("::")[-1]))
-            ctx.ob("C16-hook", "%s|Cw20HookMsg::%s|token-authorised" % (crate, var), bool(effects) and not bad,
+            ctx.ob(rule, "%s|Cw20HookMsg::%s|token-authorised" % (crate, var), bool(effects) and not bad,
                    "%d effects; not dominated by '%s': %s" % (len(effects), spec.name, sorted(set(bad))), v.where(htable[var]))
     # vault
     recv = "vault::execute::receive::receive"
-    v = ctx.view(recv, "C16-hook")
+    v = ctx.view(recv, rule) if (only is None or "vault" in only) else None
     if v is not None:
         lp = lambda os_: bool(os_) and all(o.kind == "load" and o.a.endswith("vault::state::CONFIG") and tuple(o.proj) == ("lp_asset", "#Token", "contract_addr") for o in os_)
         spec = EqGuard("sender==LP token", is_sender(model), lp)
@@ -342,7 +344,7 @@ def check_hook_authorisation(ctx, model):
         prefix = ((root, calls[0], "call"),) if calls else ()
         effects = collect_effects(model, recv, None, prefix=prefix)
         bad = [it for ch, e, it in effects if not site_guarded(model, ch, e.fn, e.block, spec)[0]]
-        ctx.ob("C16-hook", "vault|Cw20HookMsg::Withdraw|token-authorised", bool(effects) and not bad,
+        ctx.ob(rule, "vault|Cw20HookMsg::Withdraw|token-authorised", bool(effects) and not bad,
                "%d effects; not dominated by '%s': %s" % (len(effects), spec.name, sorted(set(bad))), v.where())
 
 
